@@ -48,6 +48,10 @@ def run(ctx):
         n = rng.choice([1, 2])
         pairs = [[sorted(rng.sample(range(24), rng.randint(1, 8))), sorted(rng.sample(range(24), rng.randint(1, 8)))] for _ in range(n)]
         cases.append({"kind": "intersect", "pairs": pairs, "batchings": compositions(n), "tuplew": rng.choice([[4, 8], [8, 3], [6, 4], [5, 12]])})
+    # an empty leading batch (the traces are handed to the model once before anything was intersected), then fiber by fiber
+    for c in cases:
+        if c["kind"] == "intersect" and rng.random() < 0.3:
+            c["batchings"] = list(c["batchings"]) + [[0] + [1] * len(c["pairs"])]
     for _ in range(250 if ctx.quick else 5000):
         k = rng.randint(2, 5)
         lists = [sorted(rng.sample(range(8), rng.randint(1, 5))) for _ in range(k)]
